@@ -258,7 +258,7 @@ theorem C13_handles_only {s s' : St} {t : Tid} {d : Nat} {r : Nat} (h : Reachabl
       simp only [bview_vpc, hpc, BView, privLed, bview_rled] at hp
       have hh := hi.d.held t
       simp only [dview_vpc, hpc, DView, HeldP, dview_zn] at hh
-      exact (hi.d.zdel m d hp.2 hh.1).1
+      exact (zdel_priv hi (t := t) (by simp [hpc, BView, privRec]) (by intro c z hv; simp [hpc, DView] at hv) hp.2 hh.1).1
     · rename_i nx hpc; rw [hpc] at hrel; simp [myRec] at hrel
     · rename_i m nx hpc; rw [hpc] at hrel; simp [myRec] at hrel
   · have hS := step_sound hs
@@ -268,7 +268,7 @@ theorem C13_handles_only {s s' : St} {t : Tid} {d : Nat} {r : Nat} (h : Reachabl
       simp only [bview_vpc, hpc, BView, privLed, bview_rled] at hp
       have hh := hi.d.held t
       simp only [dview_vpc, hpc, DView, HeldP, dview_zn] at hh
-      exact (hi.d.zdel m d hp.2 hh.1).1
+      exact (zdel_priv hi (t := t) (by simp [hpc, BView, privRec]) (by intro c z hv; simp [hpc, DView] at hv) hp.2 hh.1).1
     · rename_i f em x hpc; rw [hpc] at hrel; simp [myRec] at hrel
     · rename_i nx hpc; rw [hpc] at hrel; simp [myRec] at hrel
     · rename_i m nx hpc; rw [hpc] at hrel; simp [myRec] at hrel
@@ -307,14 +307,14 @@ def witness : List (Tid × Ev) :=
    (1, .mlk),
    (1, .ald (.nnext 0) .sc none),
    (1, .pldDel 0 false),
+   (1, .alo true 1),
+   (1, .pstZn 1 false),
+   (1, .conR 1 none (some 0)),
    (1, .pstDel 0 true),
    (1, .ald (.nback 0) .sc none),
    (1, .ald (.nnext 0) .sc none),
    (1, .ast .head .sc none),
    (1, .ast .tail .sc none),
-   (1, .alo true 1),
-   (1, .pstZn 1 false),
-   (1, .conR 1 none (some 0)),
    (1, .ald .zhead .sc (some 0)),
    (1, .ast (.rnext 1) .sc (some 0)),
    (1, .cas .sc (some 0) (some 1) true (some 0)),
